@@ -40,6 +40,16 @@ type maprCase struct {
 	Table gen.Table
 	Q     gen.Q
 	Part  Partition
+	// Repeat > 1: every row stands for that many identical consecutive lines (same server, same file), so that
+	// counts and sums reach magnitudes at which the partial results are transmitted in exponent notation
+	Repeat int `json:",omitempty"`
+}
+
+func (c maprCase) rep() int {
+	if c.Repeat > 1 {
+		return c.Repeat
+	}
+	return 1
 }
 
 func genPartition(t *rapid.T, tb gen.Table) Partition {
@@ -114,7 +124,9 @@ func parts(c maprCase, single bool) []lib.ServerPart {
 		}
 		for _, r := range tb.Rows {
 			if l := tb.Line(r); tb.Format != "default" || re.MatchString(l) {
-				lines = append(lines, l)
+				for k := 0; k < c.rep(); k++ {
+					lines = append(lines, l)
+				}
 			}
 		}
 		return []lib.ServerPart{{Host: "h0", Files: [][]string{lines}}}
@@ -134,7 +146,9 @@ func parts(c maprCase, single bool) []lib.ServerPart {
 			continue
 		}
 		s, f := c.Part.Server[i], c.Part.File[i]
-		ps[s].Files[f] = append(ps[s].Files[f], l)
+		for k := 0; k < c.rep(); k++ {
+			ps[s].Files[f] = append(ps[s].Files[f], l)
+		}
 	}
 	return ps
 }
@@ -193,11 +207,18 @@ func evalCase(c maprCase) lib.Outcome {
 	}
 
 	// expected groups from the reference model (front half valid everywhere; numbers only on clean tables)
-	var rows []map[string]string
+	var rows, urows []map[string]string
 	for _, r := range c.Table.Rows {
-		rows = append(rows, c.Table.Fields(r))
+		m := c.Table.Fields(r)
+		urows = append(urows, m)
+		for k := 0; k < c.rep(); k++ {
+			rows = append(rows, m)
+		}
 	}
 	exp := model.EvalQuery(q, rows)
+	if c.rep() > 1 {
+		o.Classes = append(o.Classes, fmt.Sprintf("repeat>=1e%d", len(fmt.Sprint(c.rep()))-1))
+	}
 
 	// do >=2 partitions contribute to a common group?
 	shared := false
@@ -210,7 +231,7 @@ func evalCase(c maprCase) lib.Outcome {
 				gb = append(gb, g.Name)
 			}
 		}
-		for i, m := range rows {
+		for i, m := range urows {
 			var kp []string
 			for _, g := range gb {
 				kp = append(kp, m[g])
@@ -396,6 +417,29 @@ func min(a, b int) int {
 
 func TestC05Clean(t *testing.T) {
 	lib.Run(t, lib.Spec[maprCase]{Prop: "C05", Check: "clean", Rule: "clean tables (every field present, numeric keys numeric): " + ruleText, Gen: genCase(true), Eval: evalCase, SampleOf: sample})
+}
+
+// genScaleCase: a clean table of 1..3 rows, every row standing for about a million identical lines which all go to
+// one (server, file): group counts and sums of 10^6 and more inside one partial result.
+func genScaleCase(t *rapid.T) maprCase {
+	tb := gen.GenTable(true).Draw(t, "table")
+	if n := rapid.IntRange(1, 3).Draw(t, "nrows"); len(tb.Rows) > n {
+		tb.Rows = tb.Rows[:n]
+	}
+	q := gen.MaprQuery(tb, false).Draw(t, "query")
+	c := maprCase{Table: tb, Q: q, Part: genPartition(t, tb)}
+	c.Repeat = rapid.SampledFrom([]int{1000000, 999999, 1000001, 1048576, 1234567, 2000000}).Draw(t, "repeat")
+	for s := range c.Part.SerAfter { // partial transmissions somewhere in the stream, not only within the first lines
+		for j := range c.Part.SerAfter[s] {
+			c.Part.SerAfter[s][j] *= rapid.SampledFrom([]int{1, 1000, 500000, c.Repeat}).Draw(t, "serscale")
+		}
+		sort.Ints(c.Part.SerAfter[s])
+	}
+	return c
+}
+
+func TestC05Scale(t *testing.T) {
+	lib.Run(t, lib.Spec[maprCase]{Prop: "C05", Check: "scale", Rule: "clean tables of 1..3 rows, each row repeated 999999..2000000 times on one (server, file), 1-4 servers, partial transmissions anywhere in the stream; same oracles as 'clean'; non-trivial as there", Gen: genScaleCase, Eval: evalCase, SampleOf: sample})
 }
 
 func TestC05Wide(t *testing.T) {
